@@ -136,7 +136,7 @@ def compare_with_reference(case, ds, rd, ref, pv, W):
     kap = ref["kappa"]
     scale = pv[ds["scale"]] if ds.get("scale") else 1.0
     nnls = ref.get("nnls")
-    if nnls and (kap ** 2 >= T.C * 20 or ref.get("f13") or ref.get("huge")):
+    if nnls and (min(kap, 1e150) ** 2 >= T.C * 20 or ref.get("f13") or ref.get("huge")):
         return []  # F13 regime: solver answer not decidable here (C01)
     if ds.get("global_megacomplex"):
         full = ref["full"][label]
